@@ -414,6 +414,28 @@ def adaptive_driver_harness(ns, maxcalls, err_order):
     return run
 
 
+def fallback_driver_harness(ns, maxsteps):
+    """adaptive-capable method called with tol=None: constant steps t0 + k tau starting at the given t0"""
+    def run(c):
+        t0 = Sym(z3.Real('t0')); tend = Sym(z3.Real('tend')); tau = Sym(z3.Real('tau'))
+        c.assume(z3.And(tau.t > 0, tend.t > t0.t, (tend.t - t0.t) <= maxsteps * tau.t))
+        calls = []
+        def stepper(M, Fn, Jn, x, tau_, data, Fx=None):
+            xn = c.fresh('xs'); calls.append((x, tau_, xn)); return xn, None
+        const = ns['_constant_step_method'](stepper)
+        method = ns['_adaptive_step_method'](stepper, 2, const)
+        x0 = Sym(z3.Real('x0'))
+        times, sols = method(None, None, None, x0, tau, tend, None, t0=t0)
+        k = len(calls)
+        props = [z3.BoolVal(len(times) == len(sols) == k + 1), lift(sols[0]) == x0.t]
+        for i, t in enumerate(times): props.append(lift(t) == t0.t + i * tau.t)
+        props.append(lift(times[-1]) >= tend.t)
+        if k >= 1: props.append(lift(times[-2]) < tend.t)
+        c.check(z3.And(*props), 'adaptive method with tol=None: constant steps t0 + k tau from the GIVEN initial time up to t_end')
+        c.witness('fallback')
+    return run
+
+
 def newton_harness(ns, n, maxiter, freeze):
     def run(c):
         nrm = ns['_norm']; del nrm.log[:]
@@ -506,12 +528,19 @@ def main():
         st = sx.explore(const_driver_harness(ns, 4), timeout_ms=30000)
         run.absorb(st, 'constant-step driver', bound={'steps': '<= 4'}, sample={'obligation': 'constant-step driver'})
         for cex in st.cex:
-            run.report('_constant_step_method', '%s: %s' % (cex['name'], jsonable(sx.model_dict(cex['model']))), {'kind': 'driver', 'model': jsonable(sx.model_dict(cex['model']))}, True)
+            rd = replay_driver()
+            run.report('_constant_step_method', '%s: %s; real run: %s' % (cex['name'], jsonable(sx.model_dict(cex['model'])), rd['bad']), {'kind': 'driver'}, rd['reproduced'])
+        st = sx.explore(fallback_driver_harness(ns, 4), timeout_ms=30000)
+        run.absorb(st, 'adaptive method with tol=None', bound={'steps': '<= 4', 't0': 'symbolic'}, sample={'obligation': 'tol=None fallback keeps t0'})
+        for cex in st.cex:
+            rd = replay_driver()
+            run.report('_adaptive_step_method:fallback', '%s: %s; real run: %s' % (cex['name'], jsonable(sx.model_dict(cex['model'])), rd['bad']), {'kind': 'driver'}, rd['reproduced'])
         for eo in (1, 2, 3):
             st = sx.explore(adaptive_driver_harness(ns, 3 if not thorough else 4, eo), timeout_ms=30000, max_paths=100000)
             run.absorb(st, 'adaptive driver', bound={'step attempts': '<= %d' % (3 if not thorough else 4), 'err_order': eo}, sample={'obligation': 'adaptive driver', 'err_order': eo})
             for cex in st.cex:
-                run.report('_adaptive_step_method', '%s: %s' % (cex['name'], jsonable(sx.model_dict(cex['model']))), {'kind': 'driver', 'model': jsonable(sx.model_dict(cex['model']))}, True)
+                rd = replay_driver()
+                run.report('_adaptive_step_method', '%s: %s; real run: %s' % (cex['name'], jsonable(sx.model_dict(cex['model'])), rd['bad']), {'kind': 'driver'}, rd['reproduced'])
         for (n, mi, fz) in [(1, 1, 1), (1, 3, 1), (2, 2, 2), (1, 3, 2)]:
             st = sx.explore(newton_harness(ns, n, mi, fz), timeout_ms=30000)
             run.absorb(st, 'newton', bound={'n': n, 'maxiter': mi, 'freeze_jac': fz}, sample={'obligation': 'newton', 'n': n, 'maxiter': mi})
@@ -540,6 +569,53 @@ def main():
         canary('adaptive: accept test', 'if r <= 1:', 'if r <= 2:', lambda n2: adaptive_driver_harness(n2, 3, 2))
         canary('newton: returns without test', 'if np.linalg.norm(res) < target:    # converged?', 'if np.linalg.norm(res) < 2 * target:    # converged?', lambda n2: newton_harness(n2, 1, 2, 1))
     run.finish()
+
+
+REPLAY_DRIVER = r"""
+import sys, json, numpy as np
+w = json.load(sys.stdin)
+from pyiga import solvers
+bad = []
+# constant-step driver and the tol=None fallback of adaptive-capable methods: times t0 + k tau from the given t0
+for t0, tau, tend in ((0.0, 0.25, 1.0), (2.0, 0.1, 2.5), (-1.0, 0.5, 0.25)):
+    calls = []
+    def stepper(M, F, J, x, tau_, data, Fx=None):
+        calls.append((x.copy(), tau_, Fx)); xn = x + 1.0; return xn, np.array([float(len(calls))])
+    const = solvers._constant_step_method(stepper)
+    for nm, meth, args in (('constant', const, ()), ('adaptive(tol=None)', solvers._adaptive_step_method(lambda *a, **k: stepper(*a, **k) + (None,), 2, const), (None,))):
+        del calls[:]
+        times, sols = meth(None, None, None, np.zeros(1), tau, tend, *args, t0=t0)
+        k = int(np.ceil((tend - t0) / tau - 1e-12))
+        if len(times) != k + 1 or not np.allclose(times, t0 + tau * np.arange(k + 1)): bad.append('%s driver: times %s for t0=%g tau=%g t_end=%g' % (nm, np.round(times, 6).tolist()[:8], t0, tau, tend))
+        for i, (x, tau_, Fx) in enumerate(calls):
+            if (i == 0) != (Fx is None): bad.append('%s driver: cached F at step %d' % (nm, i)); break
+            if i > 0 and float(Fx[0]) != float(i): bad.append('%s driver: cached F at step %d is not the one returned for the current state' % (nm, i)); break
+# adaptive driver: acceptance rule and the cached right-hand side after rejected steps
+for pattern in ([0.5, 2.0, 0.5, 0.5], [3.0, 3.0, 0.2, 0.9, 1.5, 0.3], [0.1, 0.1, 0.1]):
+    calls = []; tol = 1e-2
+    def stepper(M, F, J, x, tau_, data, Fx=None):
+        r = pattern[len(calls) % len(pattern)]
+        xn = x + tau_; d = tol + tol * np.abs(x); xh = xn + r * d * np.sqrt(len(x))
+        tag = np.array([100.0 + len(calls)])
+        calls.append({'x': x.copy(), 'Fx': Fx, 'r': r, 'tag': tag, 'xn': xn})
+        return xn, xh, tag
+    meth = solvers._adaptive_step_method(stepper, 2, None)
+    times, sols = meth(None, None, None, np.zeros(1), 0.1, 0.5, tol, t0=0.0)
+    accepted = [c for c in calls if c['r'] <= 1]
+    if len(sols) != len(accepted) + 1 or any(b <= a for a, b in zip(times, times[1:])): bad.append('adaptive driver: accepted steps / times inconsistent with the error test')
+    last = None
+    for c in calls:
+        want = None if last is None else last['tag']
+        if (c['Fx'] is None) != (want is None) or (want is not None and float(c['Fx'][0]) != float(want[0])):
+            bad.append('adaptive driver: cached F handed to the stepper does not belong to the current state (after a rejected step)'); break
+        if c['r'] <= 1: last = c
+print(json.dumps({'reproduced': bool(bad), 'bad': bad[:5]}))
+"""
+
+
+def replay_driver():
+    r = realbuild.run_real(REPLAY_DRIVER, {}, only=[])
+    return r
 
 
 def replay_stage(name, family):
@@ -582,6 +658,9 @@ if w['family'] == 'dirk':
     Y = np.linalg.solve(S, rhs).reshape(s, n)
     xn = np.linalg.solve(M, M @ x + tau * sum(A[s, i] * Ff(Y[i]) for i in range(s)))
     bad = not np.allclose(out[0], xn, rtol=1e-5, atol=1e-7)
+    if A.shape[0] == s + 2:      # embedded weights: second returned vector
+        xe = np.linalg.solve(M, M @ x + tau * sum(A[s + 1, i] * Ff(Y[i]) for i in range(s)))
+        if not np.allclose(out[1], xe, rtol=1e-5, atol=1e-7): bad = True
     if variants is None: bad = True
     else:
         for v in variants:
